@@ -35,9 +35,20 @@ def item_from_tla(x):
     return bytes(x)
 
 
-def mk_tx(version, locktime, sequence):
+def mk_tx(version, locktime, sequence, before=(), after=()):
+    """the transaction context of an evaluation: the checked input (index len(before)) carries `sequence`; the consensus rules of
+    both timelock opcodes look at that input only, whatever the sequences of the inputs around it"""
     from buidl.tx import Tx, TxIn
-    return Tx(version, [TxIn(b"\x00" * 32, 0, sequence=sequence)], [], locktime)
+    ins = [TxIn(bytes([k + 1]) * 32, k, sequence=sq) for k, sq in enumerate(before)] + [TxIn(b"\x00" * 32, 0, sequence=sequence)]
+    ins += [TxIn(bytes([k + 101]) * 32, k, sequence=sq) for k, sq in enumerate(after)]
+    return Tx(version, ins, [], locktime)
+
+
+def other_sequences(sequence, rng=None):
+    """sequences for the neighbouring inputs that differ from the checked one in everything the two opcodes look at"""
+    opposite = 0 if sequence == 0xFFFFFFFF else 0xFFFFFFFF
+    flipped = sequence ^ 0x80400000                        # disable flag and type flag flipped, same value
+    return (opposite, flipped & 0xFFFFFFFF)
 
 
 # ------------------------------------------------------------------ (A) table replay
@@ -94,6 +105,15 @@ def replay_time(ctx, rows):
         res = outcome(fn, st, tx, 0)
         ok = res[0] == "ok" and res[1] is True
         n += 1
+        # the same row with the checked input between two inputs whose sequences say the opposite
+        o1, o2 = other_sequences(sq)
+        st2 = [item]
+        res2 = outcome(fn, st2, mk_tx(ver, lt, sq, before=(o1,), after=(o2,)), 1)
+        ok2 = res2[0] == "ok" and res2[1] is True
+        if ok2 != r["ok"] or (ok2 and st2 != [item]):
+            ctx.violation("table-time:%s:neighbouring-inputs:%s" % ("CLTV" if r["op"] == 177 else "CSV", "accepts" if ok2 else "fails"),
+                          "operand=%s locktime=%d version=%d, checked input 1 of 3 with sequence %#x between inputs with sequences %#x, %#x: implementation %s, consensus %s"
+                          % (item.hex(), lt, ver, sq, o1, o2, res2, r["ok"]), {"kind": "time-row", "row": r})
         name = "CLTV" if r["op"] == 177 else "CSV"
         if r["op"] == 178:
             cls = "disable-flag-operand" if (len(item) >= 4 and len(item) <= 5 and (int.from_bytes(item[:4], "little") >> 31) & 1 and not item[-1] & 0x80) else "plain"
@@ -324,10 +344,13 @@ def record_runs(ctx, rng, nprog):
             version = rng.choice([1, 2, 2, 3])
             locktime = rng.choice([0, 0, 100, 499999999, 500000000, 500000001, 1700000000, 2 ** 32 - 1])
             sequence = rng.choice([0xFFFFFFFF, 0xFFFFFFFE, 0, 5, 0x400005, 0x80000000, 0x80400001, 0xFFFF, 0x40FFFF])
-            tx = mk_tx(version, locktime, sequence)
+            # the evaluated input sits among 0..2 other inputs whose sequences say the opposite of its own
+            o1, o2 = other_sequences(sequence)
+            shape = rng.choice([((), ()), ((), ()), ((o1,), ()), ((), (o2,)), ((o1,), (o2,)), ((o2, o1), ())])
+            tx = mk_tx(version, locktime, sequence, before=shape[0], after=shape[1])
             del events[:]
             with contextlib.redirect_stdout(io.StringIO()):
-                res = outcome(Script(list(cmds)).evaluate, tx, 0)
+                res = outcome(Script(list(cmds)).evaluate, tx, len(shape[0]))
             verdict = "accept" if res == ("ok", True) else "reject"
             ctxj = {"locktime": B(locktime.to_bytes(4, "little")), "sequence": B(sequence.to_bytes(4, "little")),
                     "version": B(version.to_bytes(4, "little"))}
